@@ -174,17 +174,23 @@ class ScannerModel(object):
                 self.methods[name] = (ok, self._callee(ok))
 
     def _callee(self, outer_key):
-        fn = self.F.fns[outer_key]
-        for blk in fn['body']['blocks']:
-            if blk['cleanup']:
-                continue
-            t = blk['term']
-            if t['k'] == 'call' and t['f'].get('fn') and t['f']['fn']['local']:
-                c = t['f']['fn']
-                sel = c.get('impl_self')
-                if sel and sel['k'] == 'adt' and sel['path'] == self.sub:
-                    return c['path']
-        return None
+        # the element method called by the outer method (directly or from one of its closures)
+        keys = [outer_key] + sorted(k for k in self.F.fns if k.startswith(outer_key + '::{closure'))
+        for k in keys:
+            fn = self.F.fns[k]
+            for blk in fn['body']['blocks']:
+                if blk['cleanup']:
+                    continue
+                t = blk['term']
+                if t['k'] == 'call' and t['f'].get('fn') and t['f']['fn']['local']:
+                    c = t['f']['fn']
+                    sel = c.get('impl_self')
+                    if sel and sel['k'] == 'adt' and sel['path'] == self.sub:
+                        return c['path']
+        # fall back to the element type's own method of the same name
+        name = outer_key.split('::')[-1]
+        cand = self.sub + '::' + name
+        return cand if cand in self.F.fns else None
 
     def sub_key(self, name):
         m = self.methods.get(name)
